@@ -11,7 +11,8 @@ def sh(cmd, cwd=None, timeout=7200):
 
 def main():
     filt = sys.argv[1:]
-    rc, o = sh("git status --porcelain", "/repo")
+    REPO = os.environ.get("VERIF_REPO", "/repo")
+    rc, o = sh("git status --porcelain", REPO)
     if o.strip():
         print("/repo is not clean"); return 2
     rows = []
@@ -20,14 +21,14 @@ def main():
         if filt and not any(f in name for f in filt):
             continue
         prop = name.split("-")[0]
-        rc, o = sh(f"git apply {d}patch.diff", "/repo")
+        rc, o = sh(f"git apply {d}patch.diff", REPO)
         if rc != 0:
             rows.append((name, "patch does not apply", 0)); continue
         t0 = time.time()
         try:
             rc, o = sh(f"./bin/mowcheck check --property {prop} --tier quick --no-evidence", "/verif")
         finally:
-            sh("git checkout -- .", "/repo")
+            sh("git checkout -- .", REPO)
         viol = [l for l in o.splitlines() if l.startswith("VIOLATION")]
         ok = rc == 1 and len(viol) > 0
         rows.append((name, "caught" if ok else f"MISSED (exit {rc})", time.time() - t0))
